@@ -14,7 +14,7 @@ import json
 import os
 from concurrent.futures import ProcessPoolExecutor
 
-from vlib import common, gen, c06_gen, c06_oracle, c06_tree
+from vlib import common, gen, c06_gen, c06_oracle, c06_tree, c06_spec_oracle
 
 PID = "C06"
 
@@ -32,6 +32,17 @@ def _judge(args):
 
 def _init(tj):
     _judge.tj = tj
+
+
+def _judge3(args):
+    xml, ans, lid, kw = args
+    try:
+        src = c06_oracle.source_infoset(xml, kw)
+        return c06_spec_oracle.judge(src, ans, _judge.tj, lid, kw)
+    except RecursionError:
+        return ["oracle: recursion limit"]
+    except Exception as e:          # pyexpat on the source
+        return ["source not parsed by pyexpat: %s" % e]
 
 
 def corpus_docs():
@@ -129,8 +140,17 @@ def run(ctx):
             nontrivial.add((real_lid, cw[5:]))
         else:
             enc_status[cw] = enc_status.get(cw, 0) + 1
+    # third oracle: the proved strict decoder of the parser development (Spec.decode_lang, driver C04) on the C's bytes
+    d04 = common.build_driver("C04")
+    sa, scr = common.run_lines(d04, ["strict %d %s" % (j[2], j[1].hex() if j[1] else "-") for j in jobs])
     with ProcessPoolExecutor(common.NPROC, initializer=_init, initargs=(tj,)) as ex:
         verdicts = list(ex.map(_judge, jobs, chunksize=64))
+        verdicts3 = list(ex.map(_judge3, [(j[0], a, j[2], j[5]) for j, a in zip(jobs, sa)], chunksize=64))
+    spec_fail = 0
+    for k, v3 in enumerate(verdicts3):
+        if v3:
+            spec_fail += 1
+            verdicts[k] = list(verdicts[k]) + ["Spec.decode_lang (Coq strict decoder): " + v3[0]]
     ok_by_src = {}
     for i, v in zip(jidx, verdicts):
         line, lid, kind, xml, o = cases[i]
@@ -176,6 +196,8 @@ def run(ctx):
         "correspondence_disagreements": len(corr),
         "oracle_judged": len(jobs),
         "oracle_failures": len(concrete),
+        "spec_decoder_judged": len(jobs),
+        "spec_decoder_failures": spec_fail,
         "cases_of_the_former_D7_shape": former_d7,
         "c07_sources_with_all_16_option_tuples_equal": full_cross,
     })
